@@ -170,8 +170,17 @@ func run(sc scenario) (body func(), check func(r *vrt.Result) []finding) {
 			calls = append(calls, c)
 			retained = append(retained, req)
 			b := behOf(c.Conn, c.Seq)
+			if has(b, "preapi") {
+				c.Ctx.APIRequest() // another modifier marked the exchange as addressed to the proxy's API first
+			}
 			if has(b, "skip") {
 				c.Ctx.SkipRoundTrip()
+			}
+			if has(b, "api") {
+				c.Ctx.APIRequest() // ... or a later modifier of the same chain does (context flags are independent)
+			}
+			if has(b, "skiplog") {
+				c.Ctx.SkipLogging()
 			}
 			if has(b, "hijack-req") {
 				hijack(req)
@@ -211,7 +220,13 @@ func run(sc scenario) (body func(), check func(r *vrt.Result) []finding) {
 			if has(behOf(c.Conn, c.Seq), "rterr") {
 				return nil, errors.New("simulated round trip failure")
 			}
-			return pworld.SimpleResponse(req, 200, "origin says hi to "+c.Conn+"/"+c.Seq), nil
+			res := pworld.SimpleResponse(req, 200, "origin says hi to "+c.Conn+"/"+c.Seq)
+			if has(behOf(c.Conn, c.Seq), "rtclone") {
+				// a wrapping RoundTripper that works on a clone of the request (req.Clone / req.WithContext, the
+				// documented way to add headers or tracing): its response names the clone
+				res.Request = req.Clone(req.Context())
+			}
+			return res, nil
 		}
 		// blind tunnels dial a target that echoes one line
 		w.Proxy.SetDial(func(network, addr string) (net.Conn, error) {
@@ -574,7 +589,7 @@ func firstLine(s string) string {
 
 func scenarios(tier string) []scenario {
 	var out []scenario
-	inner := []string{"pass", "reqerr", "reserr", "skip", "rterr", "hijack-req", "hijack-res", "rterr+hijack-res", "skip+hijack-res", "reqerr+hijack-res", "reqerr+reserr", "mlreqerr", "mlreserr", "mlreqerr+mlreserr"}
+	inner := []string{"pass", "reqerr", "reserr", "skip", "rterr", "hijack-req", "hijack-res", "rterr+hijack-res", "skip+hijack-res", "reqerr+hijack-res", "reqerr+reserr", "mlreqerr", "mlreserr", "mlreqerr+mlreserr", "rtclone", "skip+api+skiplog", "preapi+skip"}
 	// plain: all behaviour sequences of length 1..2 (3 thorough)
 	maxLen := 2
 	if tier == "thorough" {
@@ -765,7 +780,7 @@ func main() {
 	rep.Coverage["traces_validated_against_impl"] = rep.Counter("executions")
 	rep.Coverage["bound_completed"] = minBound
 	rep.Coverage["exhaustive"] = rep.Incomplete == ""
-	rep.Coverage["bounds"] = fmt.Sprintf("%d scenarios: plain mode with all behaviour sequences (7 behaviours) up to length %d, blind CONNECT x 6 behaviours, MITM with plaintext / TLS inside x CONNECT behaviours x inner behaviours, optional second concurrent connection; every schedule with <= %d deviations (one less for TLS scenarios)", len(scen), map[string]int{"quick": 2, "thorough": 3}[tier], map[string]int{"quick": 1, "thorough": 3}[tier])
+	rep.Coverage["bounds"] = fmt.Sprintf("%d scenarios: plain mode with all behaviour sequences (17 behaviours incl. combinations: errors with one- and multi-line messages, skip round trip combined with the other context marks in both orders, a RoundTripper answering on a clone of the request) up to length %d, blind CONNECT x 6 behaviours, MITM with plaintext / TLS inside x CONNECT behaviours x inner behaviours, optional second concurrent connection; every schedule with <= %d deviations (one less for TLS scenarios)", len(scen), map[string]int{"quick": 2, "thorough": 3}[tier], map[string]int{"quick": 1, "thorough": 3}[tier])
 	rep.Coverage["explanation"] = "each execution runs the real proxy.go/context.go over simnet under the gosim scheduler with recording modifiers; hook martian.VerifLiveContexts (add-only, build tag verif) counts live request-to-context associations"
 	rep.Assumptions = []string{"round trips go through a synchronous harness RoundTripper (which validates header fields like http.Transport)", "TLS inside the tunnel uses crypto/tls unmodified on simnet connections", "unsynchronised accesses (context/session id generation, context table) are covered by the auxiliary free-running -race pass (sampling)"}
 	raceIters := "30"
